@@ -119,11 +119,11 @@ def variants(n, edges, max_out):
                     yield inputs, (sym[0],)
 
 
-def size_assignments(inds, mode):
+def size_assignments(inds, mode, n=3):
     inds = list(inds)
     # dimensions of size 1 (a tensor all of whose legs have size 1 is NOT a
-    # scalar): every single index, every pair, and all of them
-    for m in (1, 2):
+    # scalar): every single index, every pair (n <= 5), and all of them
+    for m in ((1, 2) if n <= 5 else (1,)):
         for ones in itertools.combinations(inds, m):
             yield {ix: (1 if ix in ones else 2 + (j % 2))
                    for j, ix in enumerate(inds)}
@@ -225,7 +225,7 @@ def work(unit):
             mode = "dev2"
         else:
             mode = "dev1"
-        for sd in size_assignments(inds, mode):
+        for sd in size_assignments(inds, mode, n):
             rc = ref.RefCosts(inputs, output, sd)
             table = []  # per tree: (rows, outer_free)
             for steps in trees:
@@ -248,6 +248,9 @@ def work(unit):
                         for entry in ("fn", "cls", "cls-percall",
                                       "preset-path", "preset-tree"):
                             if entry != "fn" and cap not in (2, 10**12):
+                                continue
+                            if entry == "cls-percall" and n >= 6 and \
+                                    cap != 10**12:
                                 continue
                             if entry.startswith("preset") and (
                                     obj != "flops" or cap != 10**12):
